@@ -14,10 +14,16 @@ use serde_json::{json, Value};
 type Lc<S> = LinearCombination<FOf<S>>;
 
 fn coeff<S: Scheme>(rng: &mut impl RngCore) -> FOf<S> {
-    match rng.next_u32() % 6 {
+    match rng.next_u32() % 8 {
         0 => FOf::<S>::zero(),
         1 => FOf::<S>::one(),
         2 => -FOf::<S>::one(),
+        // short scalars of every bit length up to 128 (truncated challenges, small integers): scalar
+        // multiplications have fast paths keyed on the size of the scalar
+        3 | 4 => {
+            let x = ((rng.next_u64() as u128) << 64) | rng.next_u64() as u128;
+            FOf::<S>::from(x >> (rng.next_u32() % 128))
+        }
         _ => FOf::<S>::rand(rng),
     }
 }
@@ -144,13 +150,23 @@ fn gen_lcs<S: Scheme>(tx: &Tx<S>, allow_bounded_mix: bool, rng: &mut ChaCha20Rng
         }
     }
     // query set over LC labels: 1..3 point labels, some sharing a value
-    let npl = range(rng, 1, 3);
-    let plabels = distinct_labels(&["z", "beta", "alpha", "z10", "z2", "gamma"], npl, rng);
+    let npl = range(rng, 1, 4);
+    let mut plabels = distinct_labels(&["z", "beta", "alpha", "z10", "z2", "gamma"], npl, rng);
+    // a third of the sets with three or more labels: the first and the third label IN LABEL ORDER share one point value
+    // and the label between them has another one (aliases that are not adjacent in the verifier's iteration order)
+    let sandwich = npl >= 3 && rng.next_u32() % 3 == 0;
+    if sandwich {
+        plabels.sort();
+    }
     let mut vals: Vec<PtOf<S>> = Vec::new();
     let mut shared_value = false;
     let mut qs = QuerySet::new();
     for (i, pl) in plabels.iter().enumerate() {
-        let z = if i > 0 && rng.next_u32() % 2 == 0 {
+        let z = if sandwich && i == 2 {
+            vals[0].clone()
+        } else if sandwich && i == 1 {
+            S::other_point(&tx.w.cfg, &vals[0], rng)
+        } else if i > 0 && rng.next_u32() % 2 == 0 {
             vals[below(rng, vals.len())].clone()
         } else {
             S::gen_point(&tx.w.cfg, rng)
@@ -161,7 +177,7 @@ fn gen_lcs<S: Scheme>(tx: &Tx<S>, allow_bounded_mix: bool, rng: &mut ChaCha20Rng
         vals.push(z.clone());
         let mut any = false;
         for lc in &lcs {
-            if rng.next_u32() % 3 != 0 {
+            if rng.next_u32() % 3 != 0 || (sandwich && rng.next_u32() % 2 == 0) {
                 qs.insert((lc.label.clone(), (pl.clone(), z.clone())));
                 any = true;
             }
